@@ -23,6 +23,7 @@ RULE = ("random problems (n 1..12, p 1..3, q 0..2, default / custom-Normal K, no
         "jitter, all unit assignments) x prior samples; a case is non-trivial iff dropping the jitter, swapping two prior "
         "variance slots or un-capping lambda_K in the closed form moves ll by > 100x the tolerance (measured)")
 R1, R2, R3 = "kernel.exact=closed_form", "api.float~closed_form", "api.finite"
+R4 = "kernel.buffers(exact twin)=Lean Q model"
 
 
 def plan(ctx):
@@ -58,6 +59,47 @@ def nontrivial_variants(pr, c, M, theta, ll0, tol):
             if v is not None and abs(v - ll0) > 100 * tol:
                 hits.append("cap")
     return hits
+
+
+def fstr(q):
+    q = F(q)
+    return f"{q.numerator}/{q.denominator}"
+
+
+def buffers_vs_lean(ctx, g, hx, row, inp):
+    """R4: the work arrays the exact twin leaves behind (B, Binv, A, Ainv, b; a after a posterior step) must equal,
+    as rationals, what the Lean Q model computes from the helper's own inputs.  Purely a model<->code tie: a
+    difference here is a broken correspondence (ctx.mismatch), the property itself is decided by R1/R2."""
+    import exact
+    need = ["M_T", "rv", "ivar", "mu", "Lambda", "B", "Binv", "A", "Ainv", "b", "n_linear", "n_times"]
+    if not all(hasattr(hx, nm) for nm in need):
+        ctx.count("buffers_unavailable")
+        return
+    try:
+        hx.batch_marginal_ln_likelihood(exact.farr(np.asarray(row, dtype=float)[None, :]))
+    except ZeroDivisionError:
+        return
+    n, k = int(hx.n_times), int(hx.n_linear)
+    MT = np.asarray(hx.M_T)
+    op = {"op": "kernel.evalq", "n": n, "k": k, "full": True,
+          "M": [fstr(MT[j, i]) for i in range(n) for j in range(k)], "y": [fstr(v) for v in np.asarray(hx.rv)],
+          "ivar": [fstr(v) for v in np.asarray(hx.ivar)], "s": fstr(F(float(row[4]))),
+          "mu": [fstr(v) for v in np.asarray(hx.mu)[:k]], "lam": [fstr(v) for v in np.asarray(hx.Lambda)[:k]]}
+    m = ctx.model(op)
+    if "singular" in m:
+        return
+    diffs = []
+    for nm in ("B", "Binv", "A", "Ainv"):
+        got = np.asarray(getattr(hx, nm))
+        want = m[nm]
+        if any(F(got[i, j]) != core.rat(want[i][j]) for i in range(len(want)) for j in range(len(want))):
+            diffs.append(nm)
+    if any(F(v) != core.rat(w) for v, w in zip(np.asarray(hx.b), m["b"])):
+        diffs.append("b")
+    ctx.evaluated(R4, ("buf", g["index"], tuple(float(v) for v in row)))
+    if diffs:
+        ctx.mismatch(R4, g, inp, dict(differing=diffs), None,
+                     "work arrays of the exact-mode kernel twin must equal the Lean model's B, Binv, A, Ainv, b as rationals")
 
 
 def run_problem(ctx, g, rng, high_e=False):
@@ -133,6 +175,8 @@ def run_problem(ctx, g, rng, high_e=False):
                 if not cf_m["singular"] and (core.rat(mres["chi2"]) != cf_m["chi2"] or core.rat(mres["detB"]) != cf_m["detB"]):
                     raise core.Infra(f"Lean kernel model disagrees with the dense closed form on exact rationals "
                                      f"(case {g}, row {i}): model chi2={float(core.rat(mres['chi2']))} vs {float(cf_m['chi2'])}")
+        if i < 2:
+            buffers_vs_lean(ctx, g, hx, chunk[i], inp)
         tolF, well, cA, cB = kern.budget(M, [float(v) for v in var], [float(v) for v in lam], cf["chi2"], ll0, c["n"], th["e"], r=cf["r"])
         tolE = 1e-10 * (1 + abs(ll0)) + 1e-13 * np.sqrt(cB) * (1 + abs(float(cf["chi2"])))
         hits = nontrivial_variants(pr, c, M, th, ll0, max(tolF, tolE)) if i < 3 else []
